@@ -37,7 +37,12 @@ Definition check_at (p : program) (H : annot) (pc : N) : bool :=
 
 Definition entry_ok (p : program) (H : annot) (e : N) : bool := succ_ok p H (e, init).
 
-Definition offsets (n : N) : list N := map N.of_nat (seq 0 (N.to_nat n)).
+Fixpoint offsets_from (k : nat) (start : N) : list N :=
+  match k with
+  | O => []
+  | S k' => start :: offsets_from k' (start + 1)
+  end.
+Definition offsets (n : N) : list N := offsets_from (N.to_nat n) 0.
 
 Definition check (p : program) (H : annot) : bool :=
   forallb (entry_ok p H) (pentries p) && forallb (check_at p H) (offsets (plen p)).
